@@ -191,6 +191,102 @@ func scenario(name string, limit int, warm []reqSpec, conc []reqSpec, after []re
 		}}
 }
 
+// hookWriter models a response writer that hands the header to the client as
+// soon as WriteHeader is called (the agent's streaming writer does): the client
+// may send its next request from that moment on.
+type hookWriter struct {
+	*httptest.ResponseRecorder
+	on    func(http.Header)
+	fired bool
+}
+
+func (w *hookWriter) WriteHeader(code int) {
+	w.ResponseRecorder.WriteHeader(code)
+	if !w.fired {
+		w.fired = true
+		w.on(w.Header())
+	}
+}
+
+// followUp: the backend sets a cookie in answer to the first request of a
+// session; as soon as the client has the response header it sends the next
+// request of that session, which must carry the cookie.
+func followUp(existing bool, pb int) vx.Scenario {
+	name := "follow-up-on-header/new-session"
+	if existing {
+		name = "follow-up-on-header/existing-session"
+	}
+	return vx.Scenario{Name: name, PB: pb, MaxSteps: 5000,
+		Setup: func(s *vs.Sched) func(*vs.Result) vx.Exec {
+			cache := sessions.NewCache(cookieName, time.Hour, 100, false)
+			backend := http.HandlerFunc(func(w http.ResponseWriter, r *http.Request) {
+				w.Header().Set("X-Saw", r.Header.Get("Cookie"))
+				if sc := r.Header.Get("X-Reply"); sc != "" {
+					w.Header().Add("Set-Cookie", sc)
+				}
+				w.WriteHeader(200)
+			})
+			h := cache.SessionHandler(backend, nil)
+			session := ""
+			headerSeen := false
+			var sync int
+			sawFirst, sawNext := "<none>", "<none>"
+			grab := func(hdr http.Header) {
+				for _, c := range (&http.Response{Header: hdr}).Cookies() {
+					if c.Name == cookieName {
+						session = c.Value
+					}
+				}
+			}
+			s.Thread("client", func() {
+				if existing {
+					r := httptest.NewRequest("GET", "http://h1.example.com/", nil)
+					rec := httptest.NewRecorder()
+					h.ServeHTTP(rec, r)
+					grab(rec.Header())
+				}
+				r := httptest.NewRequest("GET", "http://h1.example.com/login", nil)
+				if session != "" {
+					r.Header.Set("Cookie", cookieName+"="+session)
+				}
+				r.Header.Set("X-Reply", "tokA=1")
+				w := &hookWriter{ResponseRecorder: httptest.NewRecorder()}
+				w.on = func(hdr http.Header) {
+					grab(hdr)
+					sawFirst = hdr.Get("X-Saw")
+					vs.Touch(unsafe.Pointer(&sync))
+					headerSeen = true
+					vs.Point("response header handed to the client", unsafe.Pointer(&sync))
+				}
+				h.ServeHTTP(w, r)
+			})
+			s.Thread("client-next-request", func() {
+				vs.Wait("response header of the first request", unsafe.Pointer(&sync), func() bool { return headerSeen })
+				r := httptest.NewRequest("GET", "http://h1.example.com/next", nil)
+				r.Header.Set("Cookie", cookieName+"="+session)
+				rec := httptest.NewRecorder()
+				h.ServeHTTP(rec, r)
+				sawNext = rec.Header().Get("X-Saw")
+			})
+			return func(r *vs.Result) vx.Exec {
+				var x vx.Exec
+				for _, p := range r.Panics {
+					x.Violations = append(x.Violations, "PANIC: "+p)
+				}
+				for _, b := range r.Blocked {
+					if len(r.Panics) == 0 {
+						x.Violations = append(x.Violations, fmt.Sprintf("HANG: %s blocked in %s", b.Thread, b.Op))
+					}
+				}
+				if len(x.Violations) == 0 && sawNext != "tokA=1" {
+					x.Violations = append(x.Violations, fmt.Sprintf("FOLLOW-UP-WITHOUT-COOKIE: the backend set tokA=1 in the response whose header the client had already received, but the next request of that session reached the backend with Cookie %q", sawNext))
+				}
+				x.Obs = sawFirst + " / " + sawNext
+				return x
+			}
+		}}
+}
+
 func main() {
 	set := "tok%=1"
 	vx.Main(&vx.Harness{Property: "C10", Name: "sessconc", Scenarios: func(tier string) []vx.Scenario {
@@ -209,6 +305,7 @@ func main() {
 			scenario("evicted-in-flight", 2, []reqSpec{{"A", "/", ""}, {"B", "/", ""}, {"C", "/", ""}}, []reqSpec{{"A", "/", set}, {"B", "/", ""}, {"C", "/", ""}, {"A", "/x", ""}}, []reqSpec{{"A", "/", ""}}, pb-1),
 			scenario("evicting", 2, warmAB, []reqSpec{{"A", "/", ""}, {"", "/", "anon=1"}, {"B", "/", ""}}, []reqSpec{{"A", "/", ""}, {"B", "/", ""}}, pb-1),
 		}
+		out = append(out, followUp(false, pb), followUp(true, pb))
 		if tier == "thorough" {
 			out = append(out, scenario("three-way", 100, warmAB, []reqSpec{{"A", "/", ""}, {"B", "/", set}, {"", "/", "anon=1"}}, []reqSpec{{"A", "/", ""}, {"B", "/", ""}}, 2))
 		}
